@@ -364,12 +364,20 @@ def trace_nf(trace, vk, bad):
 # ---------------------------------------------------------------------------
 # one case = (signature, call, failing pairs, body mode)
 # ---------------------------------------------------------------------------
-def run_case(fx: Fixture, call, bad, mode):
-    """real side of one case + oracle; returns observation dict (label space)"""
+def prepare(fx: Fixture, call):
+    """the call's objects and CPython's own binding of them (bare call of the undecorated function)"""
     args, kwargs, labels, byl = fx.objects(call)
     out, _, calls = fx.run(fx.f0, args, kwargs, frozenset(), 'ret')
     bare_loc = calls[0] if out[0] == 'returned' and calls else None
     bare_weird = None if (out[0] in ('returned', 'typeError')) else out[0]
+    bind = ('err',) if bare_loc is None else ('ok',) + tuple(bind_view(fx.sig, bare_loc, fx.defaults, labels))
+    exp = None if bare_loc is None else [[n, labels.get(id(o), '?')] for n, o in expected_pairs(fx.sig, bare_loc, fx.defaults)]
+    return args, kwargs, labels, byl, bare_loc, bare_weird, bind, exp
+
+
+def run_case(fx: Fixture, call, bad, mode, prep=None):
+    """real side of one case + oracle; returns observation dict (label space)"""
+    args, kwargs, labels, byl, bare_loc, bare_weird, bind, exp = prep or prepare(fx, call)
     badset = frozenset((n, id(byl[l])) for n, l in bad if l in byl)
     out, log, calls = fx.run(fx.f1, args, kwargs, badset, mode)
     clauses = oracle(fx, bare_loc, out, log, calls, badset, mode)
@@ -383,11 +391,8 @@ def run_case(fx: Fixture, call, bad, mode):
         result = ['raised', 'EXC' if payload is fx.exc[0] else type(payload).__name__]
     else:
         result = [kind]
-    obs = {'bind': ('err',) if bare_loc is None else ('ok',) + tuple(bind_view(fx.sig, bare_loc, fx.defaults, labels)),
-           'trace': [[n, lab(o)] for n, o in log], 'result': result, 'ran': len(calls), 'clauses': clauses,
-           'bare_weird': bare_weird,
-           'expected': None if bare_loc is None else [[n, lab(o)] for n, o in expected_pairs(fx.sig, bare_loc, fx.defaults)]}
-    return obs
+    return {'bind': bind, 'trace': [[n, lab(o)] for n, o in log], 'result': result, 'ran': len(calls), 'clauses': clauses,
+            'bare_weird': bare_weird, 'expected': exp}
 
 
 def compare(sig, call, bad, mode, obs, mod):
@@ -402,6 +407,8 @@ def compare(sig, call, bad, mode, obs, mod):
     badt = {(n, l) for n, l in bad}
     if trace_nf(obs['trace'], vk, badt) != trace_nf(mod['trace'], vk, badt):
         diffs.append(('trace', obs['trace'], mod['trace']))
+    if obs['expected'] is not None and sorted(obs['expected']) != sorted(mod['expected']):
+        diffs.append(('expected-pairs', obs['expected'], mod['expected']))
     rr, mr = obs['result'], mod['result']
     mexp = {'returned': ['returned', 'RET'], 'raised': ['raised', 'EXC']}.get(mr[0], [mr[0]])
     if rr != mexp:
@@ -444,10 +451,11 @@ def process_chunk(payload):
         rng = random.Random(f'{seed}:{idx}')
         cases, reqs = [], []
         for call in calls:
-            first = run_case(fx, call, [], 'ret')
+            prep = prepare(fx, call)
+            first = run_case(fx, call, [], 'ret', prep)
             scens = scenarios(rng, sig, call, first['expected'], n_extra(len(reqs)) if callable(n_extra) else n_extra)
             for bad, mode in scens:
-                obs = first if (not bad and mode == 'ret') else run_case(fx, call, bad, mode)
+                obs = first if (not bad and mode == 'ret') else run_case(fx, call, bad, mode, prep)
                 cases.append((call, bad, mode, obs))
             reqs.append(model_req(call, scens))
         lines.append(wire(['c04', sig_sx(sig), reqs]))
@@ -502,7 +510,7 @@ def process_chunk(payload):
                 nonpos = (obs['bind'][0] == 'ok' and (obs['bind'][2] or obs['bind'][3] or call['kw'])) or \
                     (obs['bind'][0] == 'err' and nchk >= 1)
                 if nchk >= 2 and nonpos and len({k for k, *_ in sig_params(sig)}) >= 2:
-                    res['nontrivial'].add((sig_str(sig), call_str(call)))
+                    res['nontrivial'].add(hash((sig_str(sig), call_str(call))))   # PYTHONHASHSEED=0: stable
         good = [c for c in cases if len(c[3]['trace']) >= 3 and c[3]['result'][0] in ('returned', 'paramViolation')]
         if len(res['samples']) < 2 and good and len(sig_params(sig)) >= 3:
             call, bad, mode, obs = good[len(good) // 2]
@@ -510,6 +518,15 @@ def process_chunk(payload):
                                    'real_trace': obs['trace'], 'real_result': obs['result'], 'body_ran': obs['ran']})
     res['kinds'] = sorted(res['kinds'])
     res['nontrivial'] = sorted(res['nontrivial'])
+    res['n_failures'], res['n_corr'] = len(res['failures']), len(res['corr'])
+    res['failures'].sort(key=lambda f: (len(sig_params(f['sig'])), f['call']['npos'] + len(f['call']['kw'])))
+    keep, seen = [], {}
+    for f in res['failures']:                      # bounded hand-over: the smallest few per violated clause
+        k = f['clauses'][0]
+        if seen.get(k, 0) < 20:
+            seen[k] = seen.get(k, 0) + 1
+            keep.append(f)
+    res['failures'], res['corr'] = keep, res['corr'][:20]
     return res
 
 
@@ -731,7 +748,7 @@ def explore(ck: Check, tier: str, seed: int, scale: int = 1) -> Explore:
                       'distinct = distinct (signature, call)')
     lean_driver([wire(['c04', [[], [], 'none', [], 'none', 0], []])], 'C04')     # builds the driver once, before forking
     jobs, n_small = gen_jobs(seed, tier, scale)
-    nchunks = WORKERS * 2
+    nchunks = WORKERS if tier == 'quick' else WORKERS * 10        # thorough: bounded memory per worker
     chunks = [jobs[i::nchunks] for i in range(nchunks)]
     with ProcessPoolExecutor(max_workers=WORKERS, mp_context=mp.get_context('fork')) as pool:
         results = list(pool.map(process_chunk, [(seed, c) for c in chunks if c]))
@@ -743,7 +760,7 @@ def explore(ck: Check, tier: str, seed: int, scale: int = 1) -> Explore:
         ex.evaluations += r['evaluations']
         ex.corr_diffs += r['corr']
         raw_failures += r['failures']
-        nontrivial.update(map(tuple, r['nontrivial']))
+        nontrivial.update(r['nontrivial'])
         kinds.update(r['kinds'])
         extra['signatures'] += r['sigs']
         extra['keyword_collides_with_posonly_cases'] += r['collisions']
@@ -764,10 +781,11 @@ def explore(ck: Check, tier: str, seed: int, scale: int = 1) -> Explore:
     seen, picked = set(), []
     for f in sorted(raw_failures, key=lambda f: (len(sig_params(f['sig'])), f['call']['npos'] + len(f['call']['kw']))):
         k = (f['clauses'][0], ' '.join(k for k, *_ in sig_params(f['sig'])))
-        if k not in seen and len(picked) < 6:
+        if k not in seen and len(picked) < 4:
             seen.add(k)
             picked.append(f)
-    extra['failing_cases'] = len(raw_failures)
+    extra['failing_cases'] = sum(r['n_failures'] for r in results)
+    extra['correspondence_diff_cases'] = sum(r['n_corr'] for r in results)
     for f in picked:
         ex.failures.append(to_failure(f))
     return ex
